@@ -75,6 +75,10 @@ impl Shard {
 				if over > 0 {
 					*self.report.counters.entry("executions_with_log_queue_over_128MiB".to_string()).or_insert(0) += over;
 				}
+				let kept = KEPT_LOGS_AT_LIMIT.swap(0, std::sync::atomic::Ordering::SeqCst);
+				if kept > 0 {
+					*self.report.counters.entry("executions_with_16_applied_log_files_kept".to_string()).or_insert(0) += kept;
+				}
 				case_nontrivial += out.nontrivial;
 				if let Some((sig, _, _)) = &out.failure {
 					if sig == "step-limit" {
@@ -153,7 +157,13 @@ fn run_shard(sh: &mut Shard) {
 			// beyond the 128 MiB log-queue limit (100-200 MiB of I/O per execution)
 			let n = scaled(sh, 7, 140);
 			let (r, p) = if sh.tier == "thorough" { (12, 6) } else { (4, 2) };
-			sh.run_workloads("giant", n, c15::workload_giant(), r, p, |wl, base| c15::execute(wl, base));
+			if !sh.run_workloads("giant", n, c15::workload_giant(), r, p, |wl, base| c15::execute(wl, base)) {
+				return
+			}
+			// sync_data = false: more than the 16 kept log files applied in one session
+			let n = scaled(sh, 56, 1_120);
+			let (r, p) = if sh.tier == "thorough" { (100, 50) } else { (40, 16) };
+			sh.run_workloads("kept-logs", n, c15::workload_kept_logs(), r, p, |wl, base| c15::execute(wl, base));
 		},
 		"C16" => {
 			let n = scaled(sh, 140, 2_800);
